@@ -295,6 +295,15 @@ class _TF32(TypeDesc):
 		return SF32(term)
 
 	def unwrap(self, v):
+		if isinstance(v, bool):
+			v = int(v)
+		if isinstance(v, int) and abs(v) < 2 ** 24:
+			return i2f(z3.IntVal(v))        # storing a small Python int into a float32 array: exact conversion
+		if isinstance(v, SInt):
+			return i2f(v.term)              # (float) n, round to nearest even
+		if not hasattr(v, 'term'):
+			from .ops import Unsupported
+			raise Unsupported(f'store of {v!r} into a float32 array')
 		return v.term
 
 	def __repr__(self):
